@@ -90,6 +90,12 @@ def programs():
     P['publish_join'] = C['publish_join']
     P['retry1'] = direct({'a': T(retry={'count': 1, 'delay': 0},
                                  **{'on-success': ['b']}), 'b': T()})
+    # engine commands (fail / succeed / noop) in the clauses of a task that
+    # may complete while the workflow is paused
+    for k in ('cmd_fail', 'cmd_fail_on_error', 'cmd_succeed',
+              'cmd_task_then_fail', 'cmd_fail_then_task', 'err_noop',
+              'fork_fail_race'):
+        P[k] = C[k]
     # pause while a retry delay / a wait is pending, during with-items, and
     # around a sub-workflow (pause of the parent and of the child)
     P['retry_delay'] = direct({'a': T(retry={'count': 1, 'delay': 1},
